@@ -8,7 +8,8 @@ Record c13_case := {
   p_err : bool;                                   (* Handle returned an error *)
   p_spec : option (list ev * bool);               (* from the Python-level data: expected events, connection must end with an error *)
   p_prefix : list ev;                             (* corrupted streams: events of the intact frames before the corruption *)
-  p_py : list (N * list pydp * bytes)             (* protocol, Python-level datapoints, what pickle.dumps made of them: validates Model/PyPickle.v *)
+  p_py : list (N * list pydp * bytes);            (* protocol, Python-level datapoints, what pickle.dumps made of them: validates Model/PyPickle.v *)
+  p_reprs : list (N * bytes)                      (* oracle: repr() of the floats of the protocol-0 frames, by bits *)
 }.
 
 Definition ev_eqb (a b : ev) : bool :=
@@ -32,8 +33,11 @@ Fixpoint is_prefix (a b : list ev) : bool :=
   | _ :: _, [] => false
   end.
 
+Definition frepr_of (tbl : list (N * bytes)) (b : N) : bytes :=
+  match find (fun e => fst e =? b) tbl with Some e => snd e | None => [] end.
+
 Definition pymodel_ok (c : c13_case) : bool :=
-  forallb (fun x => match x with (proto, ds, b) => beqb (if proto =? 4 then py_dumps4 ds else py_dumps proto ds) b end) (p_py c).
+  forallb (fun x => match x with (proto, ds, b) => beqb (payload_r (frepr_of (p_reprs c)) (proto, ds)) b end) (p_py c).
 
 Definition c13_verdict (c : c13_case) : N :=
   if negb (pymodel_ok c) then 7 else
